@@ -111,8 +111,9 @@ def make_oracle(cfg, fields=None, selfname="self"):
                 if x.op == "attr" and x.args[1] == "ndim" and y.op == "const" and root(x.args[0]) in ("summables", "countables", "arr", "values", "validity"):
                     eq = cfg.ndim == y.args[1]
                     return eq if t.args[0] == "==" else not eq
-        if t.op == "cmp" and t.args[0] == ">" and t.args[1].op == "attr" and t.args[1].args[1] == "ndim" and tm.is_const(t.args[2], 1):
-            return cfg.ndim > 1
+        if t.op == "cmp" and t.args[0] in (">", ">=", "<", "<=") and t.args[1].op == "attr" and t.args[1].args[1] == "ndim" and t.args[2].op == "const" and type(t.args[2].args[1]) is int:
+            k = t.args[2].args[1]
+            return {">": cfg.ndim > k, ">=": cfg.ndim >= k, "<": cfg.ndim < k, "<=": cfg.ndim <= k}[t.args[0]]
         return None
 
     return oracle
